@@ -189,6 +189,7 @@ def check_c06(prog, rep, tier, cfg):
     gap_coverage(prog, rep, "C06.c")
     original_ws_only_for_ignored(prog, rep, "C06.e")
     line_type_does_not_leak(prog, rep, "C06.f")
+    children_of_voided_lines_are_laid_out(prog, rep, "C06.g")
     # ---------------------------------------------------------------- C06.d where the spacing rule looks at a gap that is still as in the input, a line break counts as separation
     R = "C06.d"
     n = 0
@@ -282,6 +283,34 @@ def line_type_does_not_leak(prog, rep, R):
               "finish_logical_line can return (bb%s) without the current line's type being Unknown: a type set for a line that turned out empty (parse_asm_instructions types before it parses) is inherited by the tokens parsed next — e.g. the `end ;` closing an asm block becomes an ignored AsmInstruction line and keeps the input's layout"
               % bad[:3], where="%s:%d" % (b.file, b.line), instance={"returns": len(rets), "reset_blocks": sorted(rb)})
     rep.floor(R, "blocks of finish_logical_line that make the current line Unknown-typed", len(rb), 2)
+
+
+def children_of_voided_lines_are_laid_out(prog, rep, R):
+    """A child line is laid out only through its parent's solution, and the pipeline voids (empties) a line whose tokens are all
+    ignored.  So the wrapper's choice of the lines it starts from must not be `has no parent` alone: the children of a voided
+    parent would never be laid out — they keep the input's line breaks and blank lines and lose their indentation, outside any
+    verbatim region.  Contradiction rule: (the pipeline voids lines) => (the wrapper's start filter looks at the parent's type)."""
+    fb = prog.body("pasfmt_core::formatter::Formatter::format_into_buf")
+    voids = [c for c in (fb.calls() if fb else []) if (c.callee or "").endswith("LogicalLine::void_and_drain")]
+    if not voids:
+        rep.ok(R, {"voiding": "the pipeline does not void lines"}, nontrivial=False)
+        return
+    of = prog.body(OLF_FMT)
+    if not rep.check(of is not None, R, "anchor:OLF::format", "OptimisingLineFormatter::format not found"):
+        return
+    fam = [of] + [x for x in prog.bodies.values() if x.npath.startswith(of.npath + "::")]
+    # the start filter: the closure (or the function itself) that asks a line for its parent
+    starts = [x for x in fam if any((c.callee or "").endswith("LogicalLine::get_parent") for c in x.calls())]
+    starts = [x for x in starts if x.kind == "Closure" and any((c.callee or "").endswith("::filter") and any(a["k"] in ("copy", "move") and not a["place"]["p"] and norm(of.locals[a["place"]["l"]].get("closure") or "") == x.npath for a in c.args) for c in of.calls())] or starts
+    looks = False
+    for x in starts:
+        sub = [x] + [y for y in fam if y.npath.startswith(x.npath + "::")]
+        if any(v == "Voided" for y in sub for _, v in enum_variants_mentioned(y)):
+            looks = True
+    rep.check(bool(starts) and looks, R, "children-of-voided-lines-are-started",
+              "Formatter::format_into_buf voids lines whose tokens are all ignored, but the wrapper starts only from lines without a parent: the child lines of a voided line are never laid out "
+              "(`// pasfmt off⏎if a then⏎// pasfmt on⏎⏎⏎⏎      foo(a,   b);` keeps the blank lines and puts `foo(a, b);` at column 0)",
+              where="%s:%d" % (of.file, of.line), instance={"voiding_sites": len(voids), "start_filters": [short(x.npath) for x in starts], "looks_at_parent_type": looks})
 
 
 def original_ws_only_for_ignored(prog, rep, R):
@@ -821,6 +850,7 @@ def check_c08(prog, rep, tier, cfg):
     line_comment_trailing_blanks(prog, rep, "C08.d")
     # a gap nobody decides keeps the input's blank count: more than one space between two tokens on a line
     gap_coverage(prog, rep, "C08.e")
+    children_of_voided_lines_are_laid_out(prog, rep, "C08.f")
     # ---------------------------------------------------------------- C08.a emission order and counter<->string pairing
     R = "C08.a"
     cl = prog.body(RCL)
@@ -1004,6 +1034,17 @@ def rs_new_table(prog, rep, R):
         # ReconstructionSettings(newline, repeat(indent, into(arg3)), repeat(indent, into(arg4)))
         good &= ("('str', %s)" % w[0]) in r.replace('"', "'") or ("str:%s" % w[0].strip("'")) in r or repr(w[0].strip("'").encode().decode("unicode_escape")) in r
     rep.check(len(rows) == 4, R, "new:four-cases", "ReconstructionSettings::new no longer distinguishes exactly {Crlf,Lf} x {Soft,Hard}: %s" % rows, instance={"rows": rows})
+    # the two strings are `indent` repeated exactly indent_width / continuation_width times: the widths reach str::repeat unmodified
+    # (a clamp / max / arithmetic on them means something else for tabs than for blanks, and changes what 0 means)
+    fam = [nb] + [x for x in prog.bodies.values() if x.npath.startswith(nb.npath + "::")]
+    reps = [(x, c) for x in fam for c in x.calls() if (c.callee or "").endswith("str::repeat") or (c.callee or "") == "alloc::str::repeat"]
+    bad = []
+    for x, c in reps:
+        o = Origins(x, extra_identity={"core::convert::Into::into", "core::convert::From::from"}).of_operand(c.args[1])
+        if not o or not all(y[0] in ("param", "upvar") for y in o):
+            bad.append("%s: repeat count from %s" % (short(x.npath), sorted(str(y[2]).split("::")[-1] if y[0] == "call" else y[0] for y in o)))
+    rep.check(len(reps) == 2 and not bad, R, "new:widths-unmodified", "ReconstructionSettings::new does not repeat the indent character exactly indent_width / continuation_width times: %s" % (bad or "%d repeat calls" % len(reps)),
+              where="%s:%d" % (nb.file, nb.line), instance={"repeat_calls": len(reps), "count_origins": "the width parameters, unmodified"})
     return rows
 
 
@@ -1245,6 +1286,11 @@ def check_c09(prog, rep, tier, cfg):
     # ---------------------------------------------------------------- C09.g in files mode a file is left alone only if it is byte-for-byte what would be written
     import orch
     orch.unchanged_skip_is_exact(prog, rep, "C09.g")
+    # C09.h — the interior lines of a multi-line string are cut at CR, LF and CRLF alike, whatever preceded (the splitter's transition
+    # table; shared with C12.e): a terminator that is not recognised stays raw in the output under every line_ending
+    import strings as _strings
+    from engine import AliasReport
+    _strings.check_c12(prog, AliasReport(rep, [("C12.e", r".", "C09.h")]), tier, cfg)
     # ---------------------------------------------------------------- C09.c config enum mapping
     R = "C09.c"
     cv = [b for k, b in prog.bodies.items() if b.crate == "pasfmt.lib" and "LineEnding" in k and k.endswith("::from")]
